@@ -13,6 +13,17 @@
            for every admissible pick (set.pop() / set iteration order): the epsilon-path search is sound and complete
            (and terminates within the fuel of the model), accepted words yield a run accepted by the checker,
            rejected words yield None.
+   Part 4: the model of cfg_derive_word (parse tree from the CYK table with find_rule and the first split point that
+           works, extract_derivation with first_index / last_index): for a CNF grammar and a non-empty accepted word a
+           leftmost (mode 0) / rightmost (mode 1) derivation accepted by the checker is returned, PROVIDED no letter of
+           the word is the name of a variable (Python compares Variable / Terminal objects by name only; the
+           counterexample C15_cfg_derive_clash shows that the proviso is needed); for rejected words the routine raises.
+   Part 5: the model of pda_simulate_word with pda_find_epsilon_path and pda_find_transition on configurations
+           (state, stack): every returned run is accepted by the checker (every admissible pick, every iteration
+           limit, closures truncated or not); when no closure of the forward pass is truncated the searches terminate
+           within the fuel of the model for every admissible pick, a run is returned for accepted words and nothing
+           for rejected words.  The unbounded `while todo` of pda_find_epsilon_path is modelled with a fuel
+           (1 + size of the closure computed by the forward pass); see Model/Simulate2.v (D1).
    States are instantiated to nat (the harness codes state names injectively); the proofs are generic. *)
 From GT Require Import Base.Prelude Model.DFA Model.NFA Model.PDA Model.CFG Model.Simulate Proofs.SimulateProofs.
 
@@ -122,3 +133,95 @@ Print Assumptions C15_nfa_find_epsilon_path_correct.
 Print Assumptions C15_nfa_find_epsilon_path_complete.
 Print Assumptions C15_nfa_simulate_sound.
 Print Assumptions C15_nfa_simulate_none.
+
+(* ---------------- Part 4: cfg_derive_word ---------------- *)
+From GT Require Import Model.CYK Model.Simulate2 Proofs.Simulate2Proofs.
+
+Theorem C15_cfg_derive_sound : forall (G : cfg) (w : word) (mode : nat),
+  is_chomsky G -> cfg_wf G -> w <> [] ->
+  (forall a, In a w -> ~ In a (gV G)) ->            (* no letter of the word is the name of a variable *)
+  cnf_accepts G w = true -> mode <= 1 ->
+  exists steps, cfg_derive G w mode = Some steps /\ derivation_ok G mode w steps = true.
+Proof. exact cfg_derive_sound. Qed.
+
+Theorem C15_cfg_derive_none : forall (G : cfg) (w : word) (mode : nat),
+  cnf_accepts G w = false -> cfg_derive G w mode = None.
+Proof. exact cfg_derive_none. Qed.
+
+(* the proviso of C15_cfg_derive_sound cannot be dropped: V = {0, 1, 2}, terminals {2, 11}, 0 -> 1 2, 1 -> '2', 2 -> '11' *)
+Theorem C15_cfg_derive_clash :
+  is_chomsky_b clash_G = true /\ cfg_wf_b clash_G = true /\ cnf_accepts clash_G [2; 11] = true /\
+  cfg_derive clash_G [2; 11] 0 = Some [[Var 0]; [Var 1; Var 2]; [Tm 2; Var 2]; [Tm 11; Var 2]] /\
+  derivation_ok clash_G 0 [2; 11] [[Var 0]; [Var 1; Var 2]; [Tm 2; Var 2]; [Tm 11; Var 2]] = false.
+Proof. exact cfg_derive_clash. Qed.
+
+(* ---------------- Part 5: pda_simulate_word ---------------- *)
+(* partial correctness of the search: any returned path is a genuine epsilon path from R to f (every fuel) *)
+Theorem C15_pda_find_epsilon_path_correct : forall (pick : picker config) (P : pda) (fuel : nat) (R : list config) (f : config)
+    (path : list config),
+  picker_ok pick -> pda_find_epsilon_path pick P fuel R f = Some path ->
+  exists p0, hd_error path = Some p0 /\ In p0 R /\ last path p0 = f /\
+    forall i, S i < length path -> In (nth (S i) path f) (moves P (peps P) (nth i path f)).
+Proof. exact pda_find_epsilon_path_correct. Qed.
+
+(* termination with success for every admissible pick, when the configurations reachable from R by epsilon moves
+   lie in a finite set V closed under epsilon moves and the fuel exceeds |V| *)
+Theorem C15_pda_find_epsilon_path_complete : forall (pick : picker config) (P : pda) (V : list config) (fuel : nat)
+    (R : list config) (f : config),
+  picker_ok pick ->
+  (forall x y, In x V -> In y (moves P (peps P) x) -> In y V) -> incl R V -> length V < fuel ->
+  (exists r, In r R /\ pda_eps_star P r f) -> pda_find_epsilon_path pick P fuel R f <> None.
+Proof. exact (fun pick P V fuel R f Hp => pda_find_epsilon_path_complete pick Hp P V fuel R f). Qed.
+
+(* in particular with the fuel that pda_simulate passes *)
+Theorem C15_pda_find_epsilon_path_terminates : forall (pickc pick : picker config) (P : pda) (limit : nat) (R E : list config)
+    (f : config),
+  picker_ok pickc -> picker_ok pick -> pda_eclose pickc P limit R = (E, []) -> In f E ->
+  pda_find_epsilon_path pick P (S (length E)) R f <> None.
+Proof. exact pda_find_epsilon_path_terminates. Qed.
+
+Theorem C15_pda_simulate_checked : forall (pick : picker config) (P : pda) (limit : nat) (w : word)
+    (run : list (nat * word * list nat)),
+  picker_ok pick -> Forall (fun a => a <> peps P) w ->
+  pda_simulate pick limit P w = Some run -> pda_run_ok P w run = true.
+Proof. exact pda_simulate_checked. Qed.
+
+Theorem C15_pda_simulate_sound : forall (pick : picker config) (P : pda) (limit : nat) (w : word),
+  picker_ok pick -> pda_wf P -> Forall (fun a => In a (pSg P)) w -> pda_accepts pick P limit w = (true, false) ->
+  exists run, pda_simulate pick limit P w = Some run /\ pda_run_ok P w run = true.
+Proof. exact pda_simulate_sound. Qed.
+
+Theorem C15_pda_simulate_none : forall (pick : picker config) (P : pda) (limit : nat) (w : word),
+  picker_ok pick -> pda_wf P -> Forall (fun a => In a (pSg P)) w -> pda_accepts pick P limit w = (false, false) ->
+  pda_simulate pick limit P w = None.
+Proof. exact pda_simulate_none. Qed.
+
+(* the same with independent orders for the closure (pickc: the sorted FIFO list of pda_epsilon_closure) and for the
+   sets of pda_simulate_word (pick: set.pop(), set iteration) *)
+Theorem C15_pda_simulate_gen_checked : forall (pickc pick : picker config) (limit : nat) (P : pda) (w : word)
+    (run : list (nat * word * list nat)),
+  picker_ok pick -> Forall (fun a => a <> peps P) w ->
+  pda_simulate_gen pickc pick limit P w = Some run -> pda_run_ok P w run = true.
+Proof. exact (fun pickc pick limit P w run Hp => pda_simulate_gen_checked pickc pick Hp limit P w run). Qed.
+
+Theorem C15_pda_simulate_gen_sound : forall (pickc pick : picker config) (limit : nat) (P : pda) (w : word),
+  picker_ok pickc -> picker_ok pick -> Forall (fun a => a <> peps P) w -> pda_accepts pickc P limit w = (true, false) ->
+  exists run, pda_simulate_gen pickc pick limit P w = Some run /\ pda_run_ok P w run = true.
+Proof. exact (fun pickc pick limit P w Hpc Hp => pda_simulate_gen_sound pickc pick Hp limit P Hpc w). Qed.
+
+Theorem C15_pda_simulate_gen_none : forall (pickc pick : picker config) (limit : nat) (P : pda) (w : word),
+  fst (pda_accepts pickc P limit w) = false -> pda_simulate_gen pickc pick limit P w = None.
+Proof. exact (fun pickc pick limit P w => pda_simulate_gen_none pickc pick limit P w). Qed.
+
+Print Assumptions C15_cfg_derive_sound.
+Print Assumptions C15_cfg_derive_none.
+Print Assumptions C15_cfg_derive_clash.
+Print Assumptions C15_pda_find_epsilon_path_correct.
+Print Assumptions C15_pda_find_epsilon_path_complete.
+Print Assumptions C15_pda_find_epsilon_path_terminates.
+Print Assumptions C15_pda_simulate_checked.
+Print Assumptions C15_pda_simulate_sound.
+Print Assumptions C15_pda_simulate_none.
+Print Assumptions C15_pda_simulate_gen_checked.
+Print Assumptions C15_pda_simulate_gen_sound.
+Print Assumptions C15_pda_simulate_gen_none.
